@@ -89,7 +89,7 @@ pub async fn run_maint(cfg: RunCfg) -> RunResult {
     m.alive.insert(v0);
     m.ts.insert(v0, r.w.now_ns());
     let nsteps = {
-        let drawn = r.rng.range(5, 12) as u64;
+        let drawn = if cfg.thorough() { r.rng.range(8, 22) } else { r.rng.range(5, 12) } as u64;
         cfg.max_steps.map(|x| x.min(drawn)).unwrap_or(drawn)
     };
     for step in 0..nsteps {
